@@ -86,6 +86,17 @@ void h_send(void)
 #ifdef ADDR_MAX
     for (i = ADDR_MAX; i < IRC_NTOP_MAX; i++) req->text_addr[i] = '\0';     /* bounded stand-in: address text of <= ADDR_MAX bytes */
 #endif
+#ifdef SYM_PART
+    /* one component of the prefix symbolic at a time (quick tier); all three together: thorough */
+    { int c0 = req->client; unsigned short p0 = req->remote_port; char a0[IRC_NTOP_MAX];
+      for (i = 0; i < IRC_NTOP_MAX; i++) a0[i] = req->text_addr[i];
+      req->client = 7; req->remote_port = 1234;
+      req->text_addr[0] = '1'; req->text_addr[1] = '.'; req->text_addr[2] = '2'; for (i = 3; i < IRC_NTOP_MAX; i++) req->text_addr[i] = '\0';
+      if (SYM_PART == 1) req->client = c0;
+      if (SYM_PART == 2) req->remote_port = p0;
+      if (SYM_PART == 3) for (i = 0; i < IRC_NTOP_MAX; i++) req->text_addr[i] = a0[i];
+    }
+#endif
 #ifdef CONCRETE_PREFIX
     /* the <id> <address> <port> prefix is proved for all values in the job with the shortest
      * format ("d"); the other formats are proved with one concrete prefix and symbolic arguments */
@@ -201,6 +212,8 @@ struct { char s[LINE_MAX_V + 1]; } in_line;
 int in_readres;
 int in_found;             /* does the id name a live request? */
 short in_events;
+int in_two;
+static char *model_readln2(size_t *n);
 static int lines_given;
 static char *the_line;
 static unsigned dispatched;
@@ -211,6 +224,7 @@ char *evbuffer_readln(struct evbuffer *buffer, size_t *n_read_out, enum evbuffer
 {
     unsigned i, n = 0;
     (void)buffer; (void)eol_style;
+    if (in_two) return model_readln2(n_read_out);
     if (lines_given++) return NULL;
     the_line = malloc(LINE_MAX_V + 1);
     __CPROVER_assume(the_line != NULL);
@@ -222,6 +236,7 @@ char *evbuffer_readln(struct evbuffer *buffer, size_t *n_read_out, enum evbuffer
 
 static int inside_line(const char *p)
 {
+    if (in_two) return p != NULL;
     return p != NULL && __CPROVER_same_object(p, the_line) && __CPROVER_POINTER_OFFSET(p) <= LINE_MAX_V;
 }
 
@@ -268,5 +283,55 @@ void h_read(void)
             V_ASSERT(in_found && disp_req == req, "C01: lines for ids without a live request are dropped before dispatch");
         V_ASSERT(clean_exit == 0 && G.loopbreaks == 0, "C08: data lines never stop the loop");
     }
+    V_CANARY();
+}
+
+/* ------------------------------------------------------------------ C08/C09: over-long lines
+ * An echoed reply text can be far longer than the 1024-byte line buffer of iauth_send (the
+ * server relays what a service said).  With a 1500-byte argument the formatter must stay
+ * inside its buffer (pointer checks) and still write exactly one line of at most 1024 bytes. */
+static char long_arg[1501];
+void h_send_overlong(void)
+{
+    unsigned i, nl = 0;
+    req = mk_request();
+    for (i = 0; i < 1500; i++) long_arg[i] = 'A';
+    long_arg[1500] = '\0';
+    req->client = 7; req->remote_port = 1234;
+    req->text_addr[0] = '1'; req->text_addr[1] = '.'; req->text_addr[2] = '2'; req->text_addr[3] = '\0';
+    g_out_len = 0;
+    iauth_send(req, "k :%s", long_arg);
+    V_ASSERT(g_out_len >= 2 && g_out_len <= 1025, "C08: an over-long message is truncated to the line buffer, never written past it");
+    V_ASSERT(g_out[g_out_len - 1] == '\n', "C09: the (truncated) line still ends in one newline");
+    for (i = 0; i < 1200; i++) if (i + 1 < g_out_len && g_out[i] == '\n') nl++;
+    V_ASSERT(nl == 0, "C09: no newline inside the line");
+    V_ASSERT(g_out[0] == 'k' && g_out[1] == ' ' && g_out[2] == '7' && g_out[3] == ' ', "C09: truncation cannot drop the addressing prefix");
+    V_CANARY();
+}
+
+
+/* ------------------------------------------------------------------ C08/C07: junk lines do not
+ * change the treatment of the well-formed lines that follow in the same read.  Two lines arrive in
+ * one chunk: a line for an id without a live request (dropped), then a hurry-up for the live id. */
+static int lines2;
+static char *model_readln2(size_t *n)
+{
+    char *l;
+    if (lines2 == 0) { l = malloc(4); __CPROVER_assume(l != NULL); l[0] = '9'; l[1] = ' '; l[2] = 'T'; l[3] = 0; *n = 3; }
+    else if (lines2 == 1) { l = malloc(4); __CPROVER_assume(l != NULL); l[0] = '7'; l[1] = ' '; l[2] = 'H'; l[3] = 0; *n = 3; }
+    else l = NULL;
+    lines2++;
+    return l;
+}
+void h_read_two_lines(void)
+{
+    req = mk_request();
+    req->client = 7;
+    iauth_reqs = set_alloc(set_compare_int, iauth_req_cleanup);
+    set_insert(iauth_reqs, set_node(req));
+    in_readres = 8; in_events = EV_READ; in_two = 1; clean_exit = 0;
+    the_line = NULL;
+    iauth_read(0, in_events, NULL);
+    V_ASSERT(dispatched == 1 && disp_cmd == 'H' && disp_req == req, "C08/C07: a line for an unknown id is dropped and the next line of the same read is still handled");
     V_CANARY();
 }
